@@ -1,5 +1,5 @@
 (** Property C07 — staged application is order-independent. *)
-From Tx3 Require Import Base Tir Reduce Reduce_proofs Reduce_values.
+From Tx3 Require Import Base Tir Reduce Reduce_proofs Reduce_values Reduce_closed Reduce_idem.
 
 Theorem C07_args_fees_commute : forall a f e, apply_args a (apply_fees f e) = apply_fees f (apply_args a e).
 Proof. exact args_fees_commute. Qed.
@@ -18,9 +18,26 @@ Proof. exact tx_stages_commute. Qed.
 Theorem C07_values_are_fixed_points : forall e, is_value e = true ->
   exists f0, forall f, (f0 <= f)%nat -> forall pick, reduce pick f e = Ok e.
 Proof. exact reduce_value_fixed. Qed.
+(** ... and every result of reduce on a closed template is such a value: reduce is idempotent
+    on every template that has been fully applied (no unfilled parameter, query, fee reference
+    or compiler op; applied parameters hold argument values, resolved UTxOs plain datums),
+    whichever element the hash sets yield first in either pass *)
+Theorem C07_reduce_idempotent_closed : forall pick f e e',
+  is_constant e = true -> datums_plain e = true -> sets_values e = true -> reduce pick f e = Ok e' ->
+  exists f0, forall f', (f0 <= f')%nat -> forall pick', reduce pick' f' e' = Ok e'.
+Proof. exact reduce_idempotent_closed. Qed.
+(** the hypothesis about applied parameters is what the apply stages establish *)
+Theorem C07_apply_stages_fill_values : forall args ins fee e, sets_values e = true ->
+  sets_values (apply_args args e) = true /\ sets_values (apply_inputs ins e) = true /\ sets_values (apply_fees fee e) = true.
+Proof.
+  intros args ins fee e H.
+  exact (conj (apply_args_sets_values args e H) (conj (apply_inputs_sets_values ins e H) (apply_fees_sets_values fee e H))).
+Qed.
 
 Print Assumptions C07_values_are_fixed_points.
 Print Assumptions C07_args_fees_commute.
 Print Assumptions C07_args_inputs_commute.
 Print Assumptions C07_fees_inputs_commute.
 Print Assumptions C07_tx_stages_commute.
+Print Assumptions C07_reduce_idempotent_closed.
+Print Assumptions C07_apply_stages_fill_values.
